@@ -220,15 +220,15 @@ def rule_d(R, ctx):
     R.floor("C04.d", "list pointer writers", len(writers), 5)
 
 
-def rule_e(R, ctx):
+def rule_e(R, ctx, rid="C04.e"):
     Y = ctx.yrs
     fn = Y.fn("yrs::block::ItemPtr::splice")
     v = FnView(fn)
-    R.rule("C04.e", "R-PROV split keeps halves adjacent and chained: in ItemPtr::splice the new half has id (client, clock+offset), "
+    R.rule(rid, "R-PROV split keeps halves adjacent and chained: in ItemPtr::splice the new half has id (client, clock+offset), "
                     "left = self, origin = (client, clock+offset-1), right / right_origin / parent / parent_sub / info inherited, "
                     "redone shifted by offset; self.right = new, old right's left = new, self.len = offset")
     aggs = [(i, j, s) for i, j, s in fn.stmts() if "agg" in s["rv"] and s["rv"]["agg"].get("adt") == "yrs::block::Item"]
-    R.floor("C04.e", "Item aggregate in splice", len(aggs), 1)
+    R.floor(rid, "Item aggregate in splice", len(aggs), 1)
     for k, (i, j, s) in enumerate(aggs):
         fields = s["rv"]["agg"]["fields"]
         vals = {f: simp_deep(v.terms.operand(o)) for f, o in zip(fields, s["rv"]["ops"])}
@@ -251,11 +251,11 @@ def rule_e(R, ctx):
             "redone": term_has_field(vals["redone"], "Item.redone") and term_has_call(vals["redone"], "std::option::Option::map"),
         }
         for f, ok in checks.items():
-            R.ob("C04.e", fn, "new-half.%s#%d" % (f, k), ok, "%s = %s" % (f, show(vals[f], 7)), "%s:%s" % (fn.file, s["line"]))
+            R.ob(rid, fn, "new-half.%s#%d" % (f, k), ok, "%s = %s" % (f, show(vals[f], 7)), "%s:%s" % (fn.file, s["line"]))
     # self.right = Some(new_ptr); right.left = Some(new_ptr); self.len = offset
     for fld, want in (("Item.right", "new"), ("Item.left", "new"), ("Item.len", "offset")):
         ws = fn.field_writes(fld)
-        R.floor("C04.e", "write of %s in splice" % fld, len(ws), 1)
+        R.floor(rid, "write of %s in splice" % fld, len(ws), 1)
         for k, (i, j, s) in enumerate(ws):
             raw = v.terms.rvalue(s["rv"], 12)
             val = simp_deep(raw)
@@ -265,7 +265,7 @@ def rule_e(R, ctx):
                     and any(x[0] == "agg" and x[1] == "yrs::block::Item" for x in walk(raw))
             else:
                 ok = root_name(val) == "offset"
-            R.ob("C04.e", fn, "write:%s#%d" % (fld, k), ok, "%s = %s" % (fld, show(val, 6)), "%s:%s" % (fn.file, s["line"]))
+            R.ob(rid, fn, "write:%s#%d" % (fld, k), ok, "%s = %s" % (fld, show(val, 6)), "%s:%s" % (fn.file, s["line"]))
     # the redone shift closure adds the offset
     cl = [c for c in Y.closures.get(fn.path, [])]
     ok = False
@@ -274,7 +274,7 @@ def rule_e(R, ctx):
         adds = [x for x in walk(rt) if x[0] == "bin" and x[1].startswith("Add")]
         if adds and any(term_has_field(a, "ID.clock") and any(y[0] == "param" and y[1] == 1 for y in walk(a)) for a in adds):
             ok = True
-    R.ob("C04.e", fn, "redone-shift", ok, "redone is shifted by `offset` in the split half: %s" % ok)
+    R.ob(rid, fn, "redone-shift", ok, "redone is shifted by `offset` in the split half: %s" % ok)
 
 
 def rule_i(R, ctx, rid="C04.i"):
